@@ -209,7 +209,12 @@ fn indep(bytes: &[u8]) -> Value {
 fn requested(bytes: &[u8]) -> Value {
 	let mut w = x509::Walker::new();
 	match w.csr(bytes) {
-		Err(e) => json!({"k": "undecodable", "why": e}),
+		// malformedSubjectString: a value of the subject is not a value of the string type its tag names (octets that are not UTF-8
+		// under the UTF8String tag, an odd number of octets in a BMPString, ...) - no reading of such a request is "the requested name"
+		Err(e) => {
+			let ms = e.starts_with("info.subject") && (e.contains("invalid UTF8String") || e.contains("BMPString odd length") || e.contains("UniversalString length not multiple of 4"));
+			json!({"k": "undecodable", "why": e, "malformedSubjectString": ms})
+		},
 		Ok(v) => {
 			let mut sans = json!([]);
 			let mut ku = json!([]);
@@ -229,7 +234,7 @@ fn requested(bytes: &[u8]) -> Value {
 				}
 			}
 			let n_extreq_attrs = v["attrs"].as_array().unwrap().iter().filter(|a| sval(a, "oid") == "1.2.840.113549.1.9.14").count();
-			json!({"k": "ok", "subject": v["subject"], "subjectMulti": v["subjectMulti"], "spki": v["spki"]["raw"], "keyRaw": v["spki"]["key"],
+			json!({"k": "ok", "malformedSubjectString": false, "subject": v["subject"], "subjectMulti": v["subjectMulti"], "spki": v["spki"]["raw"], "keyRaw": v["spki"]["key"],
 				"subjectCps": Value::Array(v["subject"].as_array().unwrap().iter().map(|e| {
 					let t = String::from_utf8_lossy(&crate::der::unhex(&sval(e, "val"))).to_string();
 					Value::Array(t.chars().map(|c| json!(c as u32)).collect())
